@@ -19,6 +19,23 @@ Input shapes beyond the plain ones:
   attributes (the engine refuses to read such a value): the unavailable alternative must simply be
   ignored by every member of the nested family.  One engine exception poisons the interpreter, so
   this stream runs in fresh interpreters (`iso_worker`), both evaluation orders when a side raises.
+
+Round 3.
+* Three-way tie through `lib/leanrun.py`: the formulas the library BUILT — the dictionaries of
+  `get_mev_for_nested(_mu)` / `get_mev_for_cross_nested(_mu)`, `get_mev_generating_for_nested`, and the
+  expressions of `models.nested / lognested / nested_mev_mu / cnl / logcnl / cnlmu / …` (both syntaxes,
+  deprecated aliases included) — are recorded at the boundary to the engine (real signature text, parameter
+  vectors, data) and run by the proved engine model (Driver/Formula.lean); the value is compared with the
+  real engine AND with the semantic Lean model (Driver/C06.lean): `rel_formula` builds them on purpose, a
+  sample of the evaluations of every other relation is recorded on the way (`evaluate`).
+* Shapes: one nest written with the constant parameter 1 (1, 1.0, Numeric(1)) with explicit scale (the
+  "normalisation from the bottom" scripts), availabilities that empty a nest or leave one of its members,
+  parameters / scale / memberships as Python floats, ints, Numeric, fixed or free Betas, nests and members in
+  another order on one side of a pair, deprecated entry points.
+* `rel_tables`: the nests object as a table (`get_alpha_values`: members only = full table with zeros =
+  Lean `alphaRow`) and `NestsForNestedLogit.correlation` (tuples = objects, all parameters one = identity,
+  = Lean `nestedCorr`).
+* The family helpers are this property's own copy (`props/c06_base.py`).
 """
 
 from __future__ import annotations
@@ -26,13 +43,17 @@ from __future__ import annotations
 import copy
 import math
 
-from lib import core
+import random
+
+from lib import core, leanrun
 from lib.core import Result, f2b, b2f
-from props import c05
-from props.c05 import (
-    av_value, dyadic, gen_case, gen_nested_nests, gen_param, is_close, mk_av, mk_database, mk_nests, mk_util,
-    model_requests, real_values, row_view, _quiet,
+from props import c06_base as c05  # own copy of the family helpers (c05.py evolves independently)
+from props.c06_base import (
+    av_value, dyadic, gen_case, gen_nested_nests, gen_param, is_close, mk_av, mk_database, mk_util,
+    model_requests, row_view, _quiet,
 )
+
+EXTRA_MODULES = list(leanrun.MODULES)
 
 READY = True
 MANIFEST = dict(
@@ -44,6 +65,13 @@ MANIFEST = dict(
     'objects (same ln G_i, probabilities, errors); check_partition accepts only pairwise disjoint nests that do not meet the alone alternatives; the expression of '
     'get_mev_generating_for_nested is G(exp V) and HasDerivAt (fun t => G (update y i t)) (exp (ln G_i)) (y i) at y = exp V for every alternative that is alone or an available '
     'member of a nest (availability-conditioned nest sums: any non-zero indicator, alone alternatives contribute y_i). '
+    'Round 3: Euler form of the published generating function, G(exp V) = sum over the AVAILABLE members of the nests and the alone alternatives of y_i exp(ln G_i) (generating_euler), hence '
+    'P_i = y_i exp(ln G_i) / G (nested_euler_probability: the relation the harness checks on the three real functions); a nest in which the availabilities leave one member behaves as an alone '
+    'alternative, with and without explicit scale, so a nested logit with at most one available member per nest is the logit model (nested_single_available, nested_sparse_availability); nests written with the '
+    'constant parameter 1 may be dropped without explicit scale (unit_nests_droppable) but keep their log-sum with explicit scale (unit_nest_explicit_scale; unit_nest_not_alone: dropping them is wrong there); '
+    'get_alpha_values of a specification listing the members only = of the full table with zeros, = the indicator table for whole memberships (alpha_table); correlation with all nest parameters one = identity off the diagonal (correlation_mu_one). '
+    'Three-way tie: the real signature text of the formulas built by get_mev_for_nested(_mu), get_mev_for_cross_nested(_mu), get_mev_generating_for_nested and models.nested/lognested/nested_mev_mu/cnl/logcnl/cnlmu/logcnlmu (both syntaxes, deprecated aliases) '
+    'is run by the proved engine model (C01.engine_reads_text / engine_correct) and compared with the real engine and with the semantic Lean model. '
     'Tie: pairs of real model functions compared with each other on generated configurations (count-valued availability indicators, membership tables with zeros, missing-value codes on '
     'unavailable members of a nest), numerical gradient of the real generating function against the real ln G_i, '
     'Euler relation P_i = y_i G_i / G on the three real functions, values compared with the Lean model.',
@@ -60,7 +88,8 @@ MANIFEST = dict(
 )
 TRUSTED = [
     'real arithmetic vs IEEE doubles (comparison tolerance 1e-9; numerical gradient by central differences, tolerance 1e-6)',
-    'cythonbiogeme evaluates the expression trees built by biogeme.models.*',
+    'cythonbiogeme evaluates the expression trees built by biogeme.models.* — for the recorded sample of formulas this is no longer trusted: their real signature text is run by the proved engine model '
+    '(rows on which the engine model meets IEEE 0 * inf — a term of an emptied nest, where the engine product returns 0 as soon as one factor is 0 — or log 0 are compared engine vs semantic model only)',
 ]
 ASSUMPTIONS = [
     'reductions of the cross-nested logit: nest parameters != 0, availabilities in {0,1} (the cross-nested code multiplies by the availability value), nests without repeated members, '
@@ -69,7 +98,8 @@ ASSUMPTIONS = [
     'generating function: alternative alone or available member of exactly one nest (check_partition), y_i = exp V_i > 0',
 ]
 RULE = (
-    'a configuration = relation x alternatives (2-7, non-contiguous labels) x utilities x availability (None, 0/1, counts) x nest structure (members only, table with zeros); '
+    'a configuration = relation x alternatives (2-7, non-contiguous labels) x utilities x availability (None, 0/1, counts, a nest emptied or left with one member) x nest structure (members only, table with zeros, '
+    'a nest with the constant parameter 1, nests in another order) x form of the parameters (float, int, Numeric, fixed / free Beta) x entry point (current / deprecated name); '
     'non-trivial = a nest with >= 2 members or an unavailable alternative or an alone alternative'
 )
 
@@ -128,7 +158,7 @@ def widen_av(rng, case, p=0.5):
 
 
 def gen_nested(rng, fam, **kw):
-    return widen_av(rng, gen_case(rng, fam, **kw))
+    return shaped(rng, widen_av(rng, gen_case(rng, fam, **kw)))
 
 
 def pad_zero(rng, cnl_case, full):
@@ -163,6 +193,220 @@ def table_of(case):
     return (case.get('nests') or {}).get('table', 'members only')
 
 
+
+# --------------------------------------------------------------------------- adapter of this property (round 3)
+
+PARAM_FORMS = ('num', 'num', 'int', 'numeric', 'beta_fixed', 'beta_free')
+ALPHA_FORMS = ('num', 'num', 'int', 'numeric', 'beta', 'beta_free')
+W_FORMULA = 'the formula built by the library, run by the engine model (three-way)'
+W_TABLE = 'NestsForCrossNestedLogit.get_alpha_values: table view of the memberships'
+W_CORR = 'NestsForNestedLogit.correlation'
+
+
+def mk_param6(p, name=None):
+    """a nest parameter / scale / membership as the user may write it: Python float, Python int,
+    Numeric, fixed Beta, free Beta"""
+    from biogeme.expressions import Beta, Numeric
+
+    f, v = p['form'], float(p['v'])
+    if f == 'num':
+        return v
+    if f == 'int':
+        return int(v) if v == int(v) else v
+    if f == 'numeric':
+        return Numeric(v)
+    return Beta(name or p['name'], v, None, None, 0 if f == 'beta_free' else 1)
+
+
+def mk_nests(case):
+    """the `nests` argument in the syntax asked by the case (Nests object, bare tuple of nest objects,
+    legacy tuples), parameters and memberships in the form asked by the case"""
+    from biogeme.nests import NestsForCrossNestedLogit, NestsForNestedLogit, OneNestForCrossNestedLogit, OneNestForNestedLogit
+
+    n = case['nests']
+    cnl = case['family'] in ('cnl', 'cnlmu')
+    items = []
+    for j, m in enumerate(n['list']):
+        mu = mk_param6(m['mu'])
+        form = m.get('form') or ('tup' if n['syntax'] == 'tuple' else 'obj')
+        kw = {'name': m['name']} if m.get('name') else {}
+        if cnl:
+            al = {a: mk_param6({'v': x, 'form': aform}, name=f'alpha_{m["mu"].get("name", j)}_{a}') for a, x, aform in m['alphas']}
+            items.append((mu, al) if form == 'tup' else OneNestForCrossNestedLogit(nest_param=mu, dict_of_alpha=al, **kw))
+        else:
+            items.append((mu, list(m['alts'])) if form == 'tup' else OneNestForNestedLogit(nest_param=mu, list_of_alternatives=list(m['alts']), **kw))
+    items = tuple(items)
+    cls = NestsForCrossNestedLogit if cnl else NestsForNestedLogit
+    if n.get('reuse'):
+        members = lambda o: list(o.dict_of_alpha) if cnl else list(o.list_of_alternatives)  # noqa: E731
+        for obj in items[1:]:
+            if not isinstance(obj, tuple):
+                cls(choice_set=sorted(set(n['choice_set']) | set(members(obj))), tuple_of_nests=(obj,))
+    if n['syntax'] == 'object':
+        return cls(choice_set=list(n['choice_set']), tuple_of_nests=items)
+    return items
+
+
+def model_function(family, log, alias=False):
+    """the public model function; `alias`: its deprecated camelCase / _avail name where one exists"""
+    from biogeme import models
+
+    if alias:
+        old = {('nestedmu', False): 'nestedMevMu', ('nestedmu', True): 'lognestedMevMu', ('cnl', False): 'cnl_avail', ('cnl', True): 'logcnl_avail'}
+        if (family, log) in old:
+            return getattr(models, old[(family, log)])
+    return c05.model_function(family, log)
+
+
+def mev_function(family, alias=False):
+    """the public function that returns the dictionary of the ln G_i"""
+    from biogeme import models
+
+    new = {'nested': 'get_mev_for_nested', 'nestedmu': 'get_mev_for_nested_mu', 'cnl': 'get_mev_for_cross_nested', 'cnlmu': 'get_mev_for_cross_nested_mu'}
+    old = {'nested': 'getMevForNested', 'nestedmu': 'getMevForNestedMu', 'cnl': 'getMevForCrossNested', 'cnlmu': 'getMevForCrossNestedMu'}
+    return getattr(models, (old if alias else new)[family])
+
+
+# observations of formulas for the three-way comparison (filled by real_values / rel_formula when switched on)
+OBS = {'on': False, 'p': 0.0, 'rng': random.Random(0), 'store': [], 'max': 0}
+
+
+def keep_observation(case, kind, alt, what, o):
+    if 'values' in o and o.get('signature') and len(OBS['store']) < OBS['max']:
+        OBS['store'].append({'o': o, 'case': case, 'kind': kind, 'alt': alt, 'what': what})
+
+
+def evaluate(e, d, case, kind, alt, what, force=False):
+    """real evaluation of an expression on every row; a sample of the evaluations is recorded at the
+    boundary to the engine (signature text, parameter vectors, data) for the three-way comparison"""
+    if OBS['on'] and not case.get('no_formula') and len(OBS['store']) < OBS['max'] and (force or OBS['rng'].random() < OBS['p']):
+        o = leanrun.observe(e, d)
+        if 'values' in o:
+            keep_observation(case, kind, alt, what, o)
+            return o['values']
+    return [float(x) for x in e.get_value_c(database=d, prepare_ids=True)]
+
+
+def real_values(case, log=False, choices=None):
+    """evaluate the real model expression for every alternative on every row.
+    → {'ok': {alt: [value per row]}} or {'err': kind, 'msg': …}"""
+    _quiet()
+    fam = case['family']
+    try:
+        d = mk_database(case)
+        V = {a: mk_util(u) for a, u in zip(case['alts'], case['util'])}
+        av = mk_av(case)
+        fn = model_function(fam, log, case.get('alias'))
+        nests = mk_nests(case) if 'nests' in case else None
+        mu = mk_param6(case['mu']) if 'mu' in case else None
+        out = {}
+        for c in choices if choices is not None else case['alts']:
+            if fam == 'logit':
+                e = fn(V, av, c)
+            elif fam in ('nested', 'cnl'):
+                e = fn(V, av, nests, c)
+            else:
+                e = fn(V, av, nests, c, mu)
+            out[c] = evaluate(e, d, case, 'logp' if log else 'p', c, f'models.{fn.__name__}')
+        return {'ok': out}
+    except Exception as e:  # noqa: BLE001
+        return {'err': core.exc_kind(e), 'msg': f'{type(e).__name__}: {e}'[:300]}
+
+
+# --------------------------------------------------------------------------- input shapes of round 3
+
+
+def members_of(m):
+    return m['alts'] if 'alts' in m else [t[0] for t in m['alphas'] if t[1] != 0]
+
+
+def unit_nest(rng, case, p=0.3):
+    """one nest written with the constant parameter 1 (the legacy way to say "no correlation inside
+    this nest"; 1, 1.0 or Numeric(1)), preferably a nest with several members"""
+    n = case.get('nests')
+    if not n or 'alts' not in n['list'][0] or rng.random() >= p:
+        return case
+    m = rng.choice([m for m in n['list'] if len(m['alts']) >= 2] or n['list'])
+    m['mu'] = {'v': 1.0, 'form': rng.choice(['num', 'int', 'numeric']), 'name': m['mu'].get('name', 'mu_unit')}
+    n['unit_nest'] = True
+    return case
+
+
+def av_pattern(rng, case, p=0.35):
+    """availabilities that, on one row, empty a nest or leave exactly one of its members"""
+    n = case.get('nests')
+    if not n or rng.random() >= p:
+        return case
+    m = rng.choice([m for m in n['list'] if len(members_of(m)) >= 2] or n['list'])
+    mem = members_of(m)
+    if not mem:
+        return case
+    rows = case['rows']
+    r = rng.randrange(rows)
+    if case.get('av') is None:
+        case['av'] = [{'k': 'num', 'v': 1} for _ in case['alts']]
+
+    def col(i):
+        s = case['av'][i]
+        if s['k'] == 'num':
+            s = case['av'][i] = {'k': 'col', 'vals': [s['v']] * rows}
+        return s
+
+    others = [i for i, a in enumerate(case['alts']) if a not in mem]
+    keep = None if (others and rng.random() < 0.5) else rng.choice(mem)
+    for a in mem:
+        col(case['alts'].index(a))['vals'][r] = 1 if a == keep else 0
+    if not any(av_value(s, r) != 0 for s in case['av']):
+        col(rng.choice(others))['vals'][r] = 1
+    n['av_pattern'] = 'emptied nest' if keep is None else 'one member left'
+    return case
+
+
+def reform_params(rng, case, p=0.6):
+    """nest parameters, scale and memberships written as Python floats, ints, Numeric, fixed or free
+    Betas.  The zeros of a membership table stay constants or parameters as they were written."""
+    if rng.random() >= p:
+        return case
+    n = case.get('nests')
+    if n:
+        for m in n['list']:
+            if not (n.get('unit_nest') and m['mu']['v'] == 1.0):
+                m['mu']['form'] = rng.choice(PARAM_FORMS)
+            for t in m.get('alphas', []):
+                if t[1] != 0:
+                    t[2] = rng.choice(ALPHA_FORMS)
+                elif t[2] == 'num':
+                    t[2] = rng.choice(['num', 'int', 'numeric'])
+        n['forms'] = True
+    if 'mu' in case:
+        case['mu']['form'] = rng.choice(PARAM_FORMS)
+    return case
+
+
+def shaped(rng, case):
+    return reform_params(rng, av_pattern(rng, unit_nest(rng, case)))
+
+
+def reordered(rng, case, p=0.5):
+    """the same specification with the nests, and the members inside each nest, in another order"""
+    c = copy.deepcopy(case)
+    if rng.random() < p:
+        n = c['nests']
+        rng.shuffle(n['list'])
+        for m in n['list']:
+            rng.shuffle(m['alts'] if 'alts' in m else m['alphas'])
+        n['reordered'] = True
+    return c
+
+
+def shape_of(case):
+    n = case.get('nests') or {}
+    bits = [k for k in ('unit_nest', 'forms', 'reordered') if n.get(k)]
+    if n.get('av_pattern'):
+        bits.append(n['av_pattern'])
+    return ', '.join(bits) or 'plain'
+
+
 # --------------------------------------------------------------------------- comparing two real functions
 
 
@@ -170,8 +414,10 @@ def compare_pair(res, what, case_a, case_b, where, log_too=True, keep=None):
     """real(case_a) == real(case_b), probabilities and log probabilities, every alternative/row.
     `keep` receives the values of side a: keep[log] = {alt: [per row]}"""
     for log in ([False, True] if log_too else [False]):
-        ra = real_values(case_a, log=log)
-        rb = real_values(case_b, log=log)
+        # probabilities of every alternative; log probabilities of three of them (first, middle, last key: the labels are random)
+        alts = case_a['alts'] if not log or len(case_a['alts']) <= 3 else [case_a['alts'][0], case_a['alts'][len(case_a['alts']) // 2], case_a['alts'][-1]]
+        ra = real_values(case_a, log=log, choices=alts)
+        rb = real_values(case_b, log=log, choices=alts)
         if 'err' in ra or 'err' in rb:
             if ra.get('err') != rb.get('err'):
                 res.violate(f'{what}: one side raises ({ra.get("msg")}) / ({rb.get("msg")})', {'a': case_a, 'b': case_b},
@@ -179,7 +425,7 @@ def compare_pair(res, what, case_a, case_b, where, log_too=True, keep=None):
             return None
         if keep is not None:
             keep[log] = ra['ok']
-        for alt in case_a['alts']:
+        for alt in alts:
             for r in range(case_a['rows']):
                 x, y = ra['ok'][alt][r], rb['ok'][alt][r]
                 if not is_close(x, y, TOL):
@@ -227,10 +473,12 @@ def correspond(ctx, res, case, keep):
 def rel_mu_one(ctx, res, rng):
     case = gen_nested(rng, 'nested')
     case['nests'] = gen_nested_nests(rng, case['alts'], all_one=True)
+    reform_params(rng, av_pattern(rng, case))
     logit = {k: v for k, v in case.items() if k != 'nests'}
     logit['family'] = 'logit'
     res.count({'rel': 'mu_one', 'case': case}, nontrivial=nontrivial(case))
     res.tally('nested(mu_m=1) = logit')
+    res.tally('shape: ' + shape_of(case))
     compare_pair(res, 'nested logit with all nest parameters 1 vs logit', case, logit, 'models.nested (mu_m = 1) vs models.logit')
     model_pair(ctx, res, 'nested(mu_m=1) = logit', case, logit, 'models.nested (mu_m = 1) vs models.logit')
 
@@ -240,7 +488,7 @@ def to_degenerate_cnl(rng, case, family):
     c['family'] = family
     new = []
     for m in c['nests']['list']:
-        new.append({'mu': m['mu'], 'alphas': [[a, 1.0, rng.choice(['num', 'beta'])] for a in m['alts']]})
+        new.append({'mu': dict(m['mu']), 'alphas': [[a, 1.0, rng.choice(['num', 'beta'])] for a in m['alts']]})
     c['nests']['list'] = new
     return c
 
@@ -248,9 +496,10 @@ def to_degenerate_cnl(rng, case, family):
 def rel_cnl_degenerate(ctx, res, rng):
     scaled = rng.random() < 0.4
     fam = 'nestedmu' if scaled else 'nested'
-    case = gen_case(rng, fam)
-    cnl = maybe_table(rng, to_degenerate_cnl(rng, case, 'cnlmu' if scaled else 'cnl'))
+    case = shaped(rng, gen_case(rng, fam))
+    cnl = reordered(rng, reform_params(rng, maybe_table(rng, to_degenerate_cnl(rng, case, 'cnlmu' if scaled else 'cnl'))))
     res.count({'rel': 'cnl_degenerate', 'case': cnl}, nontrivial=nontrivial(case))
+    res.tally('shape: ' + shape_of(cnl))
     res.tally('cnl(alpha=1, one nest each) = nested' + (' (with mu)' if scaled else '') + f', {table_of(cnl)}')
     w = 'models.cnl (each alternative wholly in one nest) vs models.nested'
     keep = {}
@@ -266,14 +515,14 @@ def rel_cnl_single_nest(ctx, res, rng):
     the nest `(sum_j (alpha_j y_j)^mu_m)^(1/mu_m)` is the nested-logit nest at y' = alpha y"""
     scaled = rng.random() < 0.4
     fam = 'nestedmu' if scaled else 'nested'
-    case = gen_case(rng, fam)
+    case = shaped(rng, gen_case(rng, fam))
     mu = case['mu']['v'] if scaled else 1.0
     alpha = {a: dyadic(rng, 0.125, 2) for a in case['alts']}
     cnl = copy.deepcopy(case)
     cnl['family'] = 'cnlmu' if scaled else 'cnl'
-    cnl['nests']['list'] = [{'mu': m['mu'], 'alphas': [[a, alpha[a], rng.choice(['num', 'beta'])] for a in m['alts']]}
+    cnl['nests']['list'] = [{'mu': dict(m['mu']), 'alphas': [[a, alpha[a], rng.choice(['num', 'beta'])] for a in m['alts']]}
                             for m in case['nests']['list']]
-    maybe_table(rng, cnl)
+    cnl = reordered(rng, reform_params(rng, maybe_table(rng, cnl)))
     in_nest = {a for m in case['nests']['list'] for a in m['alts']}
     nested = copy.deepcopy(case)
     nested['util'] = [u if a not in in_nest else {'k': 'sum', 'of': u, 'c': math.log(alpha[a]) / mu}
@@ -327,10 +576,13 @@ def rel_euler(ctx, res, rng):
 
 def rel_scale_one(ctx, res, rng):
     fam = rng.choice(['nestedmu', 'cnlmu'])
-    case = gen_nested(rng, fam) if fam == 'nestedmu' else maybe_table(rng, gen_case(rng, fam))
-    case['mu'] = {'v': 1.0, 'form': rng.choice(['num', 'beta_fixed', 'beta_free']), 'name': 'mu_top'}
-    base = {k: v for k, v in case.items() if k != 'mu'}
+    case = gen_nested(rng, fam) if fam == 'nestedmu' else shaped(rng, maybe_table(rng, gen_case(rng, fam)))
+    case['mu'] = {'v': 1.0, 'form': rng.choice(PARAM_FORMS), 'name': 'mu_top'}
+    if rng.random() < 0.2:
+        case['alias'] = True
+    base = reordered(rng, {k: v for k, v in case.items() if k not in ('mu', 'alias')}, p=0.3)
     base['family'] = 'nested' if fam == 'nestedmu' else 'cnl'
+    res.tally('shape: ' + shape_of(case))
     res.count({'rel': 'scale_one', 'case': case}, nontrivial=nontrivial(case))
     res.tally(f'{fam}(mu=1) = {base["family"]}' + (f', {table_of(case)}' if fam == 'cnlmu' else ''))
     w = f'models.{fam} (mu = 1) vs unscaled'
@@ -343,13 +595,21 @@ def rel_scale_one(ctx, res, rng):
 
 def rel_tuple_syntax(ctx, res, rng):
     fam = rng.choice(['nested', 'nestedmu', 'cnl', 'cnlmu'])
-    case = gen_nested(rng, fam) if fam in ('nested', 'nestedmu') else maybe_table(rng, gen_case(rng, fam))
+    case = gen_nested(rng, fam) if fam in ('nested', 'nestedmu') else shaped(rng, maybe_table(rng, gen_case(rng, fam)))
+    if fam == 'nestedmu' and rng.random() < 0.5:
+        # the classical "normalisation from the bottom" script: a nest of several alternatives with the constant parameter 1, explicit scale
+        unit_nest(rng, case, p=1.0)
+        if case['mu']['v'] == 1.0:
+            case['mu']['v'] = dyadic(rng, 0.5, 3) or 0.75
     variants = []
     for syn in ('object', 'tuple', 'object_bare'):
-        c = copy.deepcopy(case)
+        c = reordered(rng, case, p=0.5 if syn == 'tuple' else 0.0)
         c['nests']['syntax'] = syn
         c['nests']['choice_set'] = list(case['alts'])
+        if syn == 'tuple' and rng.random() < 0.25:
+            c['alias'] = True
         variants.append(c)
+    res.tally('shape: ' + shape_of(variants[1]))
     res.count({'rel': 'tuple_syntax', 'case': case}, nontrivial=nontrivial(case))
     res.tally(f'tuple syntax = object syntax ({fam})')
     w = 'nests in legacy tuple syntax vs nest objects'
@@ -391,6 +651,7 @@ def rel_param_zero(ctx, res, rng):
     if rng.random() < 0.4:
         case['mu']['v'] = 1.0
     cnl = pad_zero(rng, to_degenerate_cnl(rng, case, 'cnlmu'), True)
+    cnl['no_formula'] = True  # the semantic model is the repaired behaviour here
     target = rng.choice(outside)
     for m in cnl['nests']['list']:
         for t in m['alphas']:
@@ -535,6 +796,11 @@ def check_generating(ctx, res, case, with_model=True):
                 if not is_close(b2f(a['G']), g0[r], TOL) or not is_close(b2f(a['Gy']), g0[r], TOL):
                     res.diverge(f'value of the generating function, row {r}', case, [b2f(a['G']), b2f(a['Gy'])], g0[r], where=W_GEN)
                     return
+                if math.isfinite(g0[r]) and not is_close(b2f(a['euler']), g0[r], TOL):
+                    # C06.generating_euler on the Float instance of the model, against the real value of G
+                    res.diverge(f'Euler form (sum over the available members and the alone alternatives of y_i exp(ln G_i)) vs the generating function, row {r}',
+                                case, b2f(a['euler']), g0[r], where=W_GEN)
+                    return
                 for alt, x in zip(case['alts'], a['logG']):
                     if x is not None and not is_close(b2f(x), lg[alt][r], TOL):
                         res.diverge(f'ln G_{alt}, row {r}', case, b2f(x), lg[alt][r], where=W_GEN)
@@ -590,6 +856,254 @@ def rel_named_nests(ctx, res, rng):
     model_pair(ctx, res, 'named nests', case, plain, w)
     if not scaled:
         check_generating(ctx, res, widen_av(rng, case))
+
+
+
+# --------------------------------------------------------------------------- the formulas the library built (three-way)
+
+
+def rel_formula(ctx, res, rng):
+    """the dictionaries of ln G_i (get_mev_for_nested(_mu), get_mev_for_cross_nested(_mu)), the generating
+    function and one model expression of a generated specification: the REAL signature text of each
+    built formula is run by the proved engine model and compared with the real engine and with the
+    semantic Lean model (finish_formulas)"""
+    from biogeme.expressions import Expression, Numeric
+
+    fam = rng.choice(['nested', 'nested', 'nestedmu', 'cnl', 'cnlmu'])
+    case = gen_nested(rng, fam) if fam in ('nested', 'nestedmu') else shaped(rng, maybe_table(rng, gen_case(rng, fam)))
+    if fam in ('nested', 'nestedmu') and case.get('av_counts'):
+        pass  # counts: non-zero = available, inside the nested family
+    if rng.random() < 0.3:
+        case['alias'] = True
+    res.count({'rel': 'formula', 'case': case}, nontrivial=nontrivial(case))
+    res.tally(f'formula stream: {fam}, {case["nests"]["syntax"]} syntax, {table_of(case) if fam in ("cnl", "cnlmu") else "nested"}' + (', deprecated names' if case.get('alias') else ''))
+    res.tally('shape: ' + shape_of(case))
+    _quiet()
+    try:
+        d = mk_database(case)
+        V = {a: mk_util(u) for a, u in zip(case['alts'], case['util'])}
+        av = mk_av(case)
+        nests = mk_nests(case)
+        fn = mev_function(fam, case.get('alias'))
+        mu = mk_param6(case['mu']) if 'mu' in case else None
+        lg = fn(V, av, nests) if mu is None else fn(V, av, nests, mu)
+        if sorted(lg.keys()) != sorted(case['alts']):
+            res.diverge(f'{fn.__name__}: keys of the returned dictionary', case, sorted(case['alts']), sorted(lg.keys()), where=W_FORMULA)
+            return
+        for a in rng.sample(case['alts'], min(2, len(case['alts']))):
+            e = lg[a] if isinstance(lg[a], Expression) else Numeric(lg[a])
+            evaluate(e, d, case, 'logG', a, fn.__name__, force=True)
+        if fam == 'nested':
+            from biogeme import models
+
+            gfn = models.getMevGeneratingForNested if case.get('alias') else models.get_mev_generating_for_nested
+            evaluate(gfn(V, av, nests), d, case, 'G', None, gfn.__name__, force=True)
+        log = rng.random() < 0.5
+        c = rng.choice(case['alts'])
+        mf = model_function(fam, log, case.get('alias'))
+        e = mf(V, av, nests, c) if mu is None else mf(V, av, nests, c, mu)
+        evaluate(e, d, case, 'logp' if log else 'p', c, f'models.{mf.__name__}', force=True)
+    except Exception as e:  # noqa: BLE001
+        res.violate(f'a function of the {fam} family raises on a valid specification: {type(e).__name__}: {e}'[:300], case, core.exc_kind(e), 'values', where=W_FORMULA)
+
+
+def finish_formulas(ctx, res):
+    """semantic values (Driver/C06) of every observed formula, then the real signature texts through the
+    engine model (Driver/Formula): real engine = engine model on the real text = semantic model"""
+    store = list(OBS['store'])
+    del OBS['store'][:]
+    if not store:
+        return
+    by_case = {}
+    for h in store:
+        by_case.setdefault(id(h['case']), []).append(h)
+    for hs in by_case.values():
+        case = hs[0]['case']
+        rows = case['rows']
+        reqs = list(model_requests(case))
+        if any(h['kind'] == 'G' for h in hs):
+            for r in range(rows):
+                V, av = row_view(case, r)
+                reqs.append({'op': 'generating', 'alts': case['alts'], 'V': [f2b(v) for v in V],
+                             'av': None if av is None else [f2b(x) for x in av], 'nests': c05.nests_json(case)})
+
+        def cb(ans, hs=hs, case=case, rows=rows):
+            for h in hs:
+                sem = []
+                for r in range(rows):
+                    a = ans[rows + r] if h['kind'] == 'G' else ans[r]
+                    if 'error' in a:
+                        sem.append(('error', a['error']))
+                    elif h['kind'] == 'G':
+                        sem.append(b2f(a['G']))
+                    else:
+                        x = a[h['kind']][case['alts'].index(h['alt'])]
+                        sem.append(None if x is None else b2f(x))
+                h['sem'] = sem
+
+        ctx.batch.add_many(reqs, cb)
+    ctx.batch.flush()
+    leans = leanrun.lean_values([h['o'] for h in store])
+    for h, lv in zip(store, leans):
+        label = f'{h["what"]} ({h["kind"]})'
+        sub = {'case': h['case'], 'formula': h['what'], 'kind': h['kind'], 'alternative': h['alt']}
+        res.tally(f'leanrun:{label} observed')
+        if lv is None:
+            continue
+        if isinstance(lv, tuple):
+            res.diverge(f'{label}: the text handed to the engine is not readable by the model of its reader', sub, lv, h['o']['signature'][-1:], where=W_FORMULA)
+            continue
+        res.tally('leanrun:formulas run by the engine model')
+        for r, (v, real, sem) in enumerate(zip(lv, h['o']['values'], h.get('sem') or [])):
+            if isinstance(sem, tuple):
+                res.diverge(f'{label}: the semantic model refuses ({sem[1]}) a specification the real code evaluates', {**sub, 'row': r}, sem, real, where=W_FORMULA)
+                break
+            if isinstance(v, tuple) and v[1] not in ('domain', 'choiceMissing', 'keyMissing'):
+                res.diverge(f'{label}: the engine model refuses ({v[1]}) where the real engine returns a number', {**sub, 'row': r}, v, real, where=W_FORMULA)
+                break
+            if isinstance(v, tuple) or not math.isfinite(v) or not math.isfinite(real):
+                # log(0) of the kernel, a term of an unavailable alternative that the kernel never reads, or IEEE 0 * inf inside the engine
+                # model (the engine's product returns 0 as soon as one factor is 0: modelled by `emul` in the semantic model, not by Model/Engine)
+                res.tally('leanrun:outside the regular domain (log 0, or 0 * inf in a term of an emptied nest)')
+                if sem is not None and math.isfinite(real) and not is_close(real, sem, TOL):
+                    res.diverge(f'{label}: real engine {real!r} vs the semantic Lean model {sem!r}', {**sub, 'row': r}, sem, real, where=W_FORMULA)
+                    break
+                continue
+            if not core.close(real, v, rel=1e-9, abs_=1e-12):
+                res.diverge(f'{label}: real engine vs the real signature text run by the engine model', {**sub, 'row': r}, v, real, where=W_FORMULA)
+                break
+            if sem is None:
+                continue  # a term the kernel does not read (unavailable alternative)
+            res.tally('leanrun:three-way (engine, engine model on the real text, semantic model)')
+            if not is_close(v, sem, TOL) or not is_close(real, sem, TOL):
+                res.diverge(f'{label}: the formula the code built (real engine {real!r}, engine model on its text {v!r}) vs the semantic Lean model {sem!r}',
+                            {**sub, 'row': r}, sem, v, where=W_FORMULA)
+                break
+
+
+# --------------------------------------------------------------------------- table view of the memberships, correlation
+
+
+def real_correlation(case, cs, mu):
+    """NestsForNestedLogit(choice_set, nests of the case in its syntax).correlation(mu=mu) as a list of rows"""
+    import numpy as np
+    from biogeme.nests import NestsForNestedLogit
+
+    _quiet()
+    obj = NestsForNestedLogit(choice_set=list(cs), tuple_of_nests=mk_nests(case))
+    return np.asarray(obj.correlation(mu=mu), dtype=float).tolist()
+
+
+def rel_tables(ctx, res, rng):
+    """the nests object seen as a table: get_alpha_values of a cross-nested specification in which each
+    nest lists its own members only = the same specification written as a full table (zeros), = the
+    Lean alphaRow; correlation matrix of a nested specification: legacy tuples = nest objects, all
+    nest parameters one = identity, = the Lean nestedCorr"""
+    import numpy as np
+    from biogeme.nests import NestsForCrossNestedLogit, NestsForNestedLogit
+
+    _quiet()
+    # membership table
+    case = gen_case(rng, 'cnl')
+    for m in case['nests']['list']:
+        m.pop('name', None)
+    case['nests'].pop('reuse', None)
+    case['nests']['choice_set'] = list(case['nests']['choice_set'])
+    full = pad_zero(rng, copy.deepcopy(case), True)
+    res.count({'rel': 'alpha_table', 'case': case}, nontrivial=True)
+    res.tally('membership table: members only vs full table')
+    try:
+        tabs = []
+        for c in (case, full):
+            c = copy.deepcopy(c)
+            syn = c['nests']['syntax']
+            c['nests']['syntax'] = 'tuple' if syn == 'tuple' else 'object_bare'
+            obj = NestsForCrossNestedLogit(choice_set=list(case['nests']['choice_set']), tuple_of_nests=mk_nests(c))
+            tabs.append([[a, [float(x) for x in obj.get_alpha_values(a).values()]] for a in case['nests']['choice_set']])
+    except Exception as e:  # noqa: BLE001
+        res.diverge(f'get_alpha_values raises on a valid specification: {type(e).__name__}: {e}'[:300], case, 'table', core.exc_kind(e), where=W_TABLE)
+        return
+    if tabs[0] != tabs[1]:
+        # C06.alpha_table: the two writings have the same table (not a clause of the property statement: reported as model vs code)
+        res.diverge('get_alpha_values: memberships written with the members only vs the full table with zeros', {'a': case, 'b': full}, tabs[1], tabs[0], where=W_TABLE)
+        return
+    q = dict(case, family='cnl')
+    qn = c05.nests_json(q)
+    qn['choice_set'] = list(case['nests']['choice_set'])
+
+    def cb(ans, tab=tabs[0], case=case):
+        a = ans[0]
+        got = None if 'error' in a else [[k, [b2f(x) for x in row]] for k, row in a['table']]
+        if got != tab:
+            res.diverge('get_alpha_values vs the Lean alphaTable', case, got, tab, where=W_TABLE)
+
+    ctx.batch.add_many([{'op': 'alpharow', 'alts': case['alts'], 'nests': qn}], cb)
+
+    # correlation matrix
+    nc = gen_case(rng, 'nestedmu')
+    unit_nest(rng, nc)
+    all_one = rng.random() < 0.25
+    if all_one:
+        for m in nc['nests']['list']:
+            m['mu']['v'] = 1.0
+    reform_params(rng, nc)
+    mu = 1.0 if (all_one or rng.random() < 0.4) else float(nc['mu']['v'])
+    cs = list(nc['nests']['choice_set'])
+    res.count({'rel': 'correlation', 'case': nc, 'mu': mu}, nontrivial=True)
+    res.tally('correlation matrix: tuples vs objects' + (', all nest parameters one' if all_one else ''))
+    mats, sides = [], []
+    try:
+        for syn in ('object_bare', 'tuple'):
+            c = reordered(rng, nc, p=0.5 if syn == 'tuple' else 0.0)
+            c['nests']['syntax'] = syn
+            c['nests'].pop('reuse', None)
+            sides.append(c)
+            mats.append(real_correlation(c, cs, mu))
+    except Exception as e:  # noqa: BLE001
+        res.diverge(f'correlation raises on a valid specification: {type(e).__name__}: {e}'[:300], nc, 'matrix', core.exc_kind(e), where=W_CORR)
+        return
+    # nests.get_nest: the conversion of ONE legacy tuple (same object as from_tuple; a nest object is returned as it is; anything else is a TypeError)
+    try:
+        from biogeme.nests import OneNestForNestedLogit, get_nest
+
+        res.tally('get_nest: one legacy tuple')
+        for m in nc['nests']['list']:
+            par, alts = mk_param6(m['mu']), list(m['alts'])
+            one = get_nest((par, alts))
+            ok = isinstance(one, OneNestForNestedLogit) and one.nest_param is par and one.list_of_alternatives == alts and get_nest(one) is one
+            try:
+                get_nest([par, alts])
+                ok = False
+            except TypeError:
+                pass
+            if not ok:
+                res.violate('get_nest: a legacy tuple is not converted to the nest object with the same parameter and alternatives', {'nest': m}, repr(one)[:200],
+                            'OneNestForNestedLogit(nest_param, list_of_alternatives)', where='nests.get_nest')
+                return
+    except Exception as e:  # noqa: BLE001
+        res.violate(f'get_nest raises on a legacy tuple: {type(e).__name__}: {e}'[:300], nc, core.exc_kind(e), 'a nest object', where='nests.get_nest')
+        return
+    flat = lambda m: [x for row in m for x in row]  # noqa: E731
+    if not all(is_close(x, y, TOL) for x, y in zip(flat(mats[0]), flat(mats[1]))):
+        res.violate('correlation matrix: nests in the legacy tuple syntax vs nest objects', {'a': sides[1], 'b': sides[0], 'mu': mu, 'choice_set': cs, 'correlation': True},
+                    mats[1], mats[0], where=W_CORR)
+        return
+    if all_one and mu == 1.0:
+        ident = [[1.0 if i == j else 0.0 for j in range(len(cs))] for i in range(len(cs))]
+        if not all(is_close(x, y, TOL) for x, y in zip(flat(mats[0]), flat(ident))):
+            # C06.correlation_mu_one (the statement speaks of probabilities: reported as model vs code)
+            res.diverge('correlation matrix of a nested logit whose nest parameters are all one is not the identity (logit)', {'case': nc, 'mu': mu}, ident, mats[0], where=W_CORR)
+            return
+    qn = c05.nests_json(dict(nc, family='nested'))
+    qn['choice_set'] = cs
+
+    def cb2(ans, mat=mats[0], nc=nc, mu=mu):
+        a = ans[0]
+        got = None if 'error' in a else [[b2f(x) for x in row] for row in a['corr']]
+        if got is None or not all(is_close(x, y, TOL) for x, y in zip(flat(got), flat(mat))):
+            res.diverge('correlation matrix vs the Lean nestedCorr', {'case': nc, 'mu': mu}, got, mat, where=W_CORR)
+
+    ctx.batch.add_many([{'op': 'corr', 'alts': nc['alts'], 'mu': f2b(mu), 'nests': qn}], cb2)
 
 
 # --------------------------------------------------------------------------- missing-value codes (fresh interpreters)
@@ -834,10 +1348,12 @@ def _param_zero_corpus():
             if t[0] == 5:
                 t[2] = 'beta'
     cnl['nests']['table'] = 'full, zeros of an outside alternative as parameters'
+    cnl['no_formula'] = True
     return cnl, nested
 
 
-RELATIONS = [rel_mu_one, rel_cnl_degenerate, rel_cnl_single_nest, rel_scale_one, rel_tuple_syntax, rel_generating, rel_euler, rel_named_nests]
+RELATIONS = [rel_mu_one, rel_cnl_degenerate, rel_cnl_single_nest, rel_scale_one, rel_tuple_syntax, rel_generating, rel_euler, rel_named_nests,
+             rel_formula, rel_tables]
 
 
 def check_corpus(ctx, res):
@@ -864,17 +1380,22 @@ def check_corpus(ctx, res):
 def check(ctx) -> Result:
     res = Result(rule=RULE, tolerance=f'pairs of real functions: {TOL} relative; numerical gradient: {GRAD_TOL}')
     rng = ctx.rng
+    OBS.update(on=True, p=ctx.n(0.004, 0.002), rng=core.rng_for('C06-formulas', ctx.seed), store=[], max=ctx.n(110, 900))
     with core.scratch():
         check_corpus(ctx, res)
-        n = ctx.n(24, 360)
-        for _ in range(n):
+        n = ctx.n(22, 300)
+        for it in range(n):
             for rel in RELATIONS:
+                if rel is rel_named_nests and it % 2:
+                    continue  # every other round (time budget)
                 rel(ctx, res, rng)
             if len(res.violations) > 20:
                 break
         for _ in range(ctx.n(4, 40)):
             rel_param_zero(ctx, res, rng)
         rel_missing_codes(ctx, res, rng, ctx.n(12, 100))
+        OBS['on'] = False
+        finish_formulas(ctx, res)
         ctx.batch.flush()
     return res
 
@@ -891,9 +1412,10 @@ def search(ctx, res, broken):
         batch = NoBatch()
 
     with core.scratch():
-        for _ in range(60):
+        for _ in range(40):
             for rel in RELATIONS:
-                rel(C2, r2, rng)
+                if rel is not rel_formula:  # the three-way stream reports divergences only
+                    rel(C2, r2, rng)
             if r2.violations:
                 break
         if not r2.violations:
@@ -906,7 +1428,14 @@ def replay(ctx, obj):
     out = {'replayed': obj.get('what')}
     r = Result()
     with core.scratch():
-        if case.get('isolated') and 'a' in case and 'b' in case:
+        if case.get('correlation'):
+            try:
+                ma, mb = real_correlation(case['a'], case['choice_set'], case['mu']), real_correlation(case['b'], case['choice_set'], case['mu'])
+                if not all(is_close(x, y, TOL) for ra, rb in zip(ma, mb) for x, y in zip(ra, rb)):
+                    r.violate(obj.get('what', 'correlation'), case, ma, mb, where=W_CORR)
+            except Exception as e:  # noqa: BLE001
+                r.violate(f'correlation raises: {type(e).__name__}: {e}'[:200], case, core.exc_kind(e), 'matrix', where=W_CORR)
+        elif case.get('isolated') and 'a' in case and 'b' in case:
             job = {'what': obj.get('what', 'relation'), 'a': case['a'], 'b': case['b'], 'order': 'ab', 'gen_alts': case.get('gen_alts')}
             run_isolated_jobs(r, [job])
         elif 'a' in case and 'b' in case:
